@@ -22,9 +22,49 @@ def _bins(ctx):
     return moddir, out
 
 
+def _prebuild(ctx):
+    """Builds the artefacts a check needs from the repository's working tree (REST server, wasm module)."""
+    spec, work, repo = ctx["spec"], ctx["work"], ctx["repo"]
+    for what in spec.get("prebuild", []):
+        env = dict(os.environ)
+        env["GOPROXY"] = "off"
+        for k in ("GOFLAGS", "GOWORK", "GOTOOLCHAIN", "GOSUMDB"):
+            env.pop(k, None)
+        if what == "server":
+            appdir = os.path.join(repo, "internal", "app")
+            rc, out = ctx["run"](["go", "list", "-m", "-f", "{{.Dir}}", "github.com/ja7ad/otp"], appdir, env, 120)
+            if rc != 0 or out.strip().splitlines()[-1] != repo:
+                ctx["infra"]("the REST module does not resolve github.com/ja7ad/otp to %s (workspace mode expected)" % repo, out)
+            binp = os.path.join(work, "server")
+            rc, out = ctx["run"](["go", "build", "-o", binp, "./cmd"], appdir, env, 900, os.path.join(work, "build.log"))
+            if rc != 0:
+                ctx["infra"]("REST server build failed", out)
+            ctx["env"]["VERIF_SERVER_BIN"] = binp
+            if ctx["tier"] == "thorough" and spec.get("race_server"):
+                binr = os.path.join(work, "server-race")
+                rc, out = ctx["run"](["go", "build", "-race", "-o", binr, "./cmd"], appdir, env, 900, os.path.join(work, "build.log"))
+                if rc != 0:
+                    ctx["infra"]("REST server race build failed", out)
+                ctx["env"]["VERIF_SERVER_BIN_RACE"] = binr
+        elif what == "wasm":
+            env["GOOS"], env["GOARCH"] = "js", "wasm"
+            d = os.path.join(work, "js", "lib")
+            os.makedirs(d, exist_ok=True)
+            os.makedirs(os.path.join(work, "js", "src"), exist_ok=True)
+            rc, out = ctx["run"](["go", "build", "-o", os.path.join(d, "otp.wasm"), "./wasm"], repo, env, 900, os.path.join(work, "build.log"))
+            if rc != 0:
+                ctx["infra"]("wasm build failed", out)
+            import shutil
+            for f in ("index.js", "wasm_exec.js"):
+                shutil.copy(os.path.join(repo, "otp-js", "src", f), os.path.join(work, "js", "src", f))
+            shutil.copy(os.path.join(ctx["root"], "wasm", "driver.js"), os.path.join(work, "js", "driver.js"))
+            ctx["env"]["VERIF_JS_DIR"] = os.path.join(work, "js")
+
+
 def execute(ctx):
     spec, tier, seed, work = ctx["spec"], ctx["tier"], ctx["seed"], ctx["work"]
     moddir, bins = _bins(ctx)
+    _prebuild(ctx)
     jobs = []
     max_shards = 1
     for r in spec["runs"]:
@@ -39,7 +79,7 @@ def execute(ctx):
             env["VERIF_NSHARDS"] = str(n)
             env.update({k: v.replace("{work}", work) for k, v in r.get("env", {}).items()})
             cmd = [bins[r.get("bin", "plain")], "-test.run", r["pattern"], "-test.count=1",
-                   "-rapid.seed=%d" % (seed * 1000 + k + 1), "-rapid.nofailfile",
+                   "-rapid.seed=%d" % (seed * 1000 + k + 1), "-rapid.nofailfile", "-rapid.shrinktime=12s",
                    "-test.timeout=%ds" % tmo] + r.get("args", [])
             jobs.append(("%s#%d" % (r["name"], k), cmd, env, tmo + 60))
     failed = []
@@ -82,6 +122,7 @@ def execute(ctx):
 
 def replay(ctx):
     moddir, bins = _bins(ctx)
+    _prebuild(ctx)
     env = dict(ctx["env"])
     env["VERIF_REPLAY"] = ctx["replay"]
     kind = "plain" if "plain" in bins else sorted(bins)[0]
